@@ -2,8 +2,10 @@
 // Engine L: exact voxel/pixel solids placed on, just inside and between the planes of the renderer's
 // own discovered lattice, at every position of a window (straddling coarse cube boundaries), rendered
 // through the real octree / quadtree renderer and compared (as exact multisets) with
-//  (1) the same renderer on the field scaled by 2^-10 (nothing prunable, identical signs and ratios),
-//  (2) the real per-cell step applied to every finest cell of the discovered lattice,
+//
+//	(1) the same renderer on the field scaled by 2^-10 (nothing prunable, identical signs and ratios),
+//	(2) the real per-cell step applied to every finest cell of the discovered lattice,
+//
 // and (3) the lattice must cover the shape's bounding box.
 package main
 
@@ -497,7 +499,9 @@ func main() {
 	}
 	shapes2 := []s2{
 		{"circle r=1", func(*lattice.Lat2) sdf.SDF2 { return c2(1) }},
-		{"box 2x1 rotated 45", func(*lattice.Lat2) sdf.SDF2 { return sdf.Transform2D(sdf.Box2D(v2.Vec{X: 2, Y: 1}, 0), sdf.Rotate2d(sdf.DtoR(45))) }},
+		{"box 2x1 rotated 45", func(*lattice.Lat2) sdf.SDF2 {
+			return sdf.Transform2D(sdf.Box2D(v2.Vec{X: 2, Y: 1}, 0), sdf.Rotate2d(sdf.DtoR(45)))
+		}},
 		{"rounded box rotated 30", func(*lattice.Lat2) sdf.SDF2 {
 			return sdf.Transform2D(sdf.Box2D(v2.Vec{X: 2, Y: 1}, 0.2), sdf.Rotate2d(sdf.DtoR(30)))
 		}},
